@@ -72,7 +72,7 @@ Definition kind_of (nm : string) : pkind :=
   else if nm =? "p2c" then KP2c else if nm =? "hrw" then KHrw else KMaglev.
 
 (** tokens -> operation of [Model.op] (plus the three read-only queries) *)
-Inductive cmd := CmdOp (o : op) | CmdSticky (c : nat) (sid : N) | CmdDump | CmdBad.
+Inductive cmd := CmdOp (o : op) | CmdSticky (c : nat) (sid : N) | CmdDump | CmdNop | CmdBad.
 
 Definition parse (op : list tok) : cmd :=
   match op with
@@ -134,6 +134,7 @@ Definition parse (op : list tok) : cmd :=
     else if name =? "sticky_conn" then
       match args with [TN c; TN sid; TN w] => CmdOp (OStickyConn (znat c) (zN sid) (zN w)) | _ => CmdBad end
     else if name =? "dump" then CmdDump
+    else if name =? "bb" then CmdNop      (* black-box run: nothing of the model is involved *)
     else CmdBad
   | _ => CmdBad
   end.
@@ -194,6 +195,7 @@ Definition step (s : state) (t : list tok) : state * list tok :=
   | CmdOp o => let s' := apply_op s o in (s', observe s o s')
   | CmdSticky c sid => (s, [match find_sticky s c sid with Some h => tnat h | None => TS "none" end])
   | CmdDump => (s, dump s)
+  | CmdNop => (s, [])
   | CmdBad => (s, [TS "badop"])
   end.
 
